@@ -35,6 +35,21 @@ CLAIMED = {
         "ADC tables and canonical layouts: exhaustive native enumeration of the finite configuration space.",
    note="A-NP-SPEC (lexsort, where), A-SGLX, map-string parsing summarised by contract. Known finding F-C08-1 (ADC delays for non-prefix channel subsets). History effects (caching across calls) only in the bounded stand-in (derives twice).",
    tech="AST->z3 VC generation with permutation/where specification axioms (deductive) + exhaustive enumeration of tables"),
+ "C16": dict(cat="other", ref="DESIGN.md 4/C16",
+   text="saturation() proved for any (nc, ns), scalar or per-channel range, proportion, slew limit, rate and taper width: which mask is averaged over which axis, OR-combination with '>' thresholds, trailing zero of the slew term, "
+        "mute in [0,1], 0 on flagged samples (odd widths), 1 beyond the half-width, mute computed from the flags only, input untouched.",
+   note="np.mean of a boolean column = fraction of channels (A-NP-SPEC), convolve('same') with a non negative kernel and cosine(M) centre tap (A-SCIPY) are assumed contracts exercised natively by the bounded stand-in; A-REAL. Known finding F-C16-1 (even widths).",
+   tech="AST->z3 VC generation with reduction/convolution specification axioms (deductive) + bounded native stand-in"),
+ "C03": dict(cat="other", ref="DESIGN.md 4/C03",
+   text="One symbolic iteration of the real window loop of _process_NP24 (read -> _ind2save -> _split2shanks): the block appended to each shank's AP file is exactly the original int16 samples [a_j,b_j) of that shank's columns + sync, "
+        "for every window index/size, length and shank map; ranges tile [0,ns) (lemma over C17's contract); value exactness under the binary32 rounding model for every volts-per-bit factor; reconstruction loop body scatters every column back.",
+   note="Channel lists (where(shank==s)+sync, partition) are a precondition; metadata, channel-subset strings and end-to-end bytes (all 65536 values x catalogued gains, non-contiguous shank ids) are a bounded stand-in on real files. A-FPSTD for the value obligation.",
+   tech="AST->z3 VC generation, generator contract reuse, standard floating-point error model (deductive) + bounded end-to-end"),
+ "C12": dict(cat="other", ref="DESIGN.md 4/C12",
+   text="LF half of the same loop iteration: per-window row counts tile [0, ceil(ns/12)), sync column == every 12th AP sync word, data columns == decimated filter output of the cosine-tapered calibrated window (data-flow, filter opaque); "
+        "_writemetadata_lf: 2500 Hz, per-shank channel counts, size, provenance keys, source metadata untouched.",
+   note="Numeric equality with whole-trace low-pass + decimation and window independence (<= 1 LSB) are a bounded stand-in on real files (sosfiltfilt is opaque: A-SCIPY shape only).",
+   tech="AST->z3 VC generation with an opaque-filter summary (deductive) + bounded numeric stand-in"),
 }
 NA = {
  "C19": "statistical recovery statement about a heuristic (cross-correlation + greedy matching); no contract over sync_timestamps decides it for all inputs - see DESIGN.md section 5",
